@@ -27,7 +27,7 @@ A_ALL = ["A1", "A2", "A3", "A4", "A5", "A7", "A8", "A9", "A10", "A11"]
 TOKENIZER = ["F7", "F11", "F12", "F20", "F21", "F24"]
 # Rules that are necessary for the captured op list to be a valid edit script at all; every property that reads text
 # back out of the ops (C04 reconstruction, C05 hunks, C17 remapping) depends on them.
-SCRIPT_VALID = ["E1", "E2", "E3", "G3", "G5", "G6", "G7", "B5", "F1", "F5", "F13"]
+SCRIPT_VALID = ["E1", "E2", "E3", "E5", "E6", "E7", "E9", "E10", "B6", "B7", "G3", "G9", "G5", "G6", "G7", "B5", "F1", "F5", "F13"]
 
 
 def a_rules(files, rules=A_ALL):
@@ -37,7 +37,7 @@ def a_rules(files, rules=A_ALL):
 PROPERTIES = {
     "C01": {
         "level": "other",
-        "rules": a_rules(ALG) + ["E1", "E2", "E3", "E5", "E6", "B6", "B7", "F15", "F17"],
+        "rules": a_rules(ALG) + ["E1", "E2", "E3", "E5", "E6", "E7", "E9", "E10", "B6", "B7", "F15", "F17"],
         "explanation": "Decided for all inputs: (1) every index handed to a diff hook by the three algorithms, every index "
                        "into a caller-ranged sequence and every range passed between the algorithm functions is an absolute "
                        "position of the right side and coordinate frame (A1-A5, A7: sort inference over the type-checked HIR "
@@ -48,7 +48,7 @@ PROPERTIES = {
     },
     "C02": {
         "level": "other",
-        "rules": ["F1", "F2", "F5", "F29", "B5", "G3", "G5", "G6", "G7", "F13", "F16", "E2", "E3", "E5", "E6"] + a_rules(PIPE + ALG),
+        "rules": ["F1", "F2", "F5", "F29", "B5", "G3", "G5", "G6", "G7", "F13", "F16", "E2", "E3", "E5", "E6", "E7", "E9", "E10"] + a_rules(PIPE + ALG),
         "explanation": "Decided: the capture pipeline is Compact(Replace(Capture)) and returns that hook's ops (F1); Compact "
                        "replays every buffered op once, in order, then finishes, Replace flushes in order (B5); every op "
                        "constructed or forwarded in compact/replace/capture/common/types takes old-side fields from old-"
@@ -80,7 +80,7 @@ PROPERTIES = {
     },
     "C05": {
         "level": "other",
-        "rules": ["D1", "F8", "F10", "G2", "G8", "F25", "F27", "F28", "F7"] + SCRIPT_VALID + a_rules(("udiff.rs", "types.rs", "text/mod.rs", "common.rs")),
+        "rules": ["D1", "F8", "F10", "G2", "E8", "G8", "F25", "F27", "F28", "F7"] + SCRIPT_VALID + a_rules(("udiff.rs", "types.rs", "text/mod.rs", "common.rs")),
         "explanation": "Decided: no lossy decoding is reachable from the byte writers and each line is written with "
                        "write_all(as_bytes(value)) (D1: call graph incl. fmt::Display edges); Display and to_writer emit the "
                        "same (guard, template) sequence incl. header-once and missing-newline logic (F8); hunk header extents "
@@ -99,7 +99,7 @@ PROPERTIES = {
     },
     "C07": {
         "level": "other",
-        "rules": ["C1", "C2", "C3", "C4", "C5", "C6", "B3", "E1", "E2", "E3"] +
+        "rules": ["C1", "C2", "C3", "C4", "C5", "C6", "B3", "E1", "E2", "E3", "E7"] +
                  [(r, infn("myers::conquer", "lcs::diff_deadline")) for r in ("A1", "A7")],
         "explanation": "Decided: every deadline carrier passes its own deadline to every deadline-taking callee and struct "
                        "(C1); the builder stores what it is given and into_instant/deadline_exceeded/duration_to_deadline use "
@@ -129,7 +129,7 @@ PROPERTIES = {
     },
     "C10": {
         "level": "other",
-        "rules": ["F5", "B4", "B5", "G3", "G5", "G6", "G7", "F13", "F16"] +
+        "rules": ["F5", "B4", "B5", "G3", "G9", "G5", "G6", "G7", "F13", "F16"] +
                  a_rules(("algorithms/compact.rs", "algorithms/replace.rs", "types.rs")),
         "explanation": "Decided (structural parts only): no slot or side mix-up in any compaction arm or in Replace (A1-A5, A7), "
                        "helpers move start and length consistently (F5), Replace/Compact typestate (B5), Compact buffers exactly "
@@ -138,7 +138,7 @@ PROPERTIES = {
     },
     "C11": {
         "level": "other",
-        "rules": ["G1", "G3", "G5", "G6", "G7", "F5", "F10", "F16", "A4", "A9", "A11", "E3", "E5", "E6",
+        "rules": ["G1", "G3", "G5", "G6", "G7", "F5", "F10", "F16", "A4", "A9", "A11", "E3", "E5", "E6", "E7", "E8", "B6",
                   ("A1", infile("types.rs", "algorithms/compact.rs", "algorithms/replace.rs", "algorithms/lcs.rs",
                                 "algorithms/myers.rs", "algorithms/patience.rs"))],
         "explanation": "Decided: every order-changing operation on a list of ops is followed by a rewrite of the affected "
@@ -181,7 +181,7 @@ PROPERTIES = {
     },
     "C15": {
         "level": "other",
-        "rules": ["F15", "B6", "B7", "F17", "F2"] + a_rules(("algorithms/patience.rs", "algorithms/utils.rs", "algorithms/myers.rs")) +
+        "rules": ["F15", "B6", "B7", "F17", "F2", "E10", "F30"] + a_rules(("algorithms/patience.rs", "algorithms/utils.rs", "algorithms/myers.rs")) +
                  a_rules(("algorithms/compact.rs",), ["A4", "A9"]),
         "explanation": "Decided (one clause): anchors are translated from unique-list coordinates to original coordinates "
                        "only through original_index(), per side and per frame (A1-A5, A7 with frames U vs F0 in patience.rs "
@@ -216,6 +216,19 @@ PROPERTIES = {
         "undecided": "str vs [u8] ops equality beyond the classification tables",
     },
 }
+
+# a rule listed twice (once through a group, once by hand) runs once; an unfiltered entry wins over a filtered one
+for _p in PROPERTIES.values():
+    _seen, _out = {}, []
+    for _r in _p["rules"]:
+        _rid = _r if isinstance(_r, str) else _r[0]
+        if _rid in _seen and (isinstance(_r, str) or isinstance(_out[_seen[_rid]], str)):
+            if isinstance(_r, str):
+                _out[_seen[_rid]] = _r
+            continue
+        _seen[_rid] = len(_out)
+        _out.append(_r)
+    _p["rules"] = _out
 
 NOT_APPLICABLE = {
     "C18": "get_close_matches: soundness of two numeric upper bounds and a float ranking; quantifies over values",
